@@ -607,9 +607,12 @@ func main() {
 		os.WriteFile(path, rb, 0o644)
 		if n < 40 {
 			fmt.Printf("VIOLATION property=%s replay=%s\n", id, path)
-			fmt.Printf("  class=%s tags=%v cases=%d\n  %s\n", g.first.Class, g.first.Tags, g.n, strings.ReplaceAll(firstN(g.first.Detail, 400), "\n", "\n  "))
-			if g.first.Case != "" {
-				fmt.Printf("  case: %s\n", strings.ReplaceAll(firstN(g.first.Case, 600), "\n", "\n        "))
+			fmt.Printf("  class=%s tags=%v cases=%d\n", g.first.Class, g.first.Tags, g.n)
+			if os.Getenv("VERIF_VERBOSE") != "" || n < 3 {
+				fmt.Printf("  %s\n", strings.ReplaceAll(firstN(g.first.Detail, 400), "\n", "\n  "))
+				if g.first.Case != "" {
+					fmt.Printf("  case: %s\n", strings.ReplaceAll(firstN(g.first.Case, 600), "\n", "\n        "))
+				}
 			}
 		}
 		if len(vsamples) < 3 {
